@@ -13,7 +13,12 @@
 (* offline and a clean session is discarded; if c has been superseded NOTHING changes - whenever    *)
 (* the broker gets round to tearing c down.  AdminDelete: the session is deleted and the owner is    *)
 (* disconnected.  A message on a topic is delivered to kcur iff kcur # "none" and a filter of       *)
-(* ksubs matches.                                                                                   *)
+(* ksubs matches.  A subscription is a filter WITH ITS QoS (records [f, q], one per filter): a       *)
+(* resumed session gives every filter back with the QoS it was subscribed with, and a QoS1 message    *)
+(* is delivered on the filters subscribed with QoS1 (on a QoS0 filter it may or may not be, as in      *)
+(* C15).  AdminDelete concerns the session of ONE client id: the owner of that id is disconnected,      *)
+(* and no other client is (the trace specification looks at a second client whose id is what a          *)
+(* path-like treatment of the store key would make of the deleted one - its last segment).              *)
 (*                                                                                              *)
 (* IMPLEMENTATION-SHAPED LAYER: one action per critical section of the code.                      *)
 (*   ConnectLocked   handleConn's section under Broker.Lock: takeover branch (go old.close()),     *)
@@ -40,6 +45,9 @@ EXTENDS Integers, Sequences, FiniteSets, TLC
 
 CONSTANTS Conns,          \* connection names in the order they may connect, e.g. <<"O", "N", "M">>
           FiltersS,       \* filters a connection may subscribe
+          QoSS,           \* the QoS values a filter may be subscribed with
+          ResubShuffles,  \* FALSE: the code - a resumed session's filters go back into the trie each with its own QoS; TRUE: the QoS
+                          \* values are handed out in any order (lead generation: must be refuted)
           TeardownById,   \* see above
           MaxAdmin,       \* bound on admin deletes
           AsyncStore,     \* see above
@@ -67,6 +75,16 @@ sview == <<kvars, ivars>>
 
 NoDb == [ex |-> FALSE, clean |-> FALSE, topics |-> {}]
 
+(* sets of subscriptions [f, q] with at most one entry per filter *)
+Fs(S)         == {x.f : x \in S}
+Put(S, f, q)  == {x \in S : x.f # f} \cup {[f |-> f, q |-> q]}
+Minus(S, T)   == {x \in S : x.f \notin Fs(T)}               \* unsubscribe the filters of T
+Over(S, T)    == Minus(S, T) \cup T                          \* subscribe T (again)
+(* what a re-subscription of T puts into the trie: T itself, or (ResubShuffles) T's filters with T's QoS values in any order *)
+Resubs(T) == IF ~ResubShuffles THEN {T}
+             ELSE {U \in SUBSET [f : Fs(T), q : QoSS] : Fs(U) = Fs(T) /\ Cardinality(U) = Cardinality(T)
+                                                       /\ \A v \in QoSS : Cardinality({x \in U : x.q = v}) = Cardinality({x \in T : x.q = v})}
+
 SInit ==
     /\ kcur = "none" /\ kex = FALSE /\ kclean = FALSE /\ ksubs = {} /\ kst = [c \in ConnSet |-> "idle"] /\ kdel = FALSE
     /\ pc = [c \in ConnSet |-> "idle"] /\ cl = [c \in ConnSet |-> FALSE] /\ cur = "none"
@@ -86,7 +104,7 @@ KConnect(c, clean, r) ==
     /\ kcur' = c /\ kex' = TRUE /\ kdel' = FALSE
     /\ kclean' = IF r THEN kclean ELSE clean
     /\ ksubs' = IF r THEN ksubs ELSE {}
-KSubscribe(c, f) == kcur = c /\ ksubs' = ksubs \cup {f} /\ UNCHANGED <<kcur, kex, kclean, kst, kdel>>
+KSubscribe(c, f, q) == kcur = c /\ ksubs' = Put(ksubs, f, q) /\ UNCHANGED <<kcur, kex, kclean, kst, kdel>>
 KDrop(c) ==
     /\ kst[c] \in {"up", "superseded", "kicked"}
     /\ kst' = [kst EXCEPT ![c] = "ended"]
@@ -135,12 +153,13 @@ ConnectLocked(c, clean) ==
           /\ IF reuse
              THEN /\ csess' = [csess EXCEPT ![c] = prev] /\ smap' = prev /\ sess' = s1 /\ nsid' = n1
                   /\ Store(s1[prev].clean, s1[prev].topics)                                      \* updateEGName -> store
-                  /\ trie' = IF TeardownById THEN trie ELSE trie \cup s1[prev].topics   \* repaired: re-subscription inside the section
+                  /\ \E tt \in Resubs(s1[prev].topics) :
+                        trie' = IF TeardownById THEN trie ELSE Over(trie, tt)   \* repaired: re-subscription inside the section
              ELSE /\ sess' = (IF prev # 0 THEN [s1 EXCEPT ![prev].done = TRUE] ELSE s1)
                              @@ (n1 :> [clean |-> clean, topics |-> {}, done |-> FALSE])
                   /\ csess' = [csess EXCEPT ![c] = n1] /\ smap' = n1 /\ nsid' = n1 + 1
                   /\ Store(clean, {})                                                  \* updateEGName -> store
-                  /\ trie' = IF TeardownById \/ prev = 0 THEN trie ELSE trie \ s1[prev].topics   \* repaired: discard = unsubscribe
+                  /\ trie' = IF TeardownById \/ prev = 0 THEN trie ELSE Minus(trie, s1[prev].topics)   \* repaired: discard = unsubscribe
     /\ pc' = [pc EXCEPT ![c] = IF TeardownById THEN "acked" ELSE "ready"]
     /\ ev' = [a |-> "connect", c |-> c, clean |-> clean]
     /\ UNCHANGED <<closed, watchQ, admins>>
@@ -152,32 +171,32 @@ CloseAsync(c) ==
 
 Resub(c) ==
     /\ pc[c] = "acked" /\ pc' = [pc EXCEPT ![c] = "ready"]
-    /\ trie' = trie \cup Topics(csess[c])
+    /\ \E tt \in Resubs(Topics(csess[c])) : trie' = Over(trie, tt)
     /\ ev' = [a |-> "resub", c |-> c]
     /\ UNCHANGED <<kvars, cl, cur, closed, smap, sess, nsid, csess, db, watchQ, closeReq, admins, stq>>
 
 (* only the owner of the id subscribes (the harness never sends on a superseded connection) *)
-Subscribe(c, f) ==
+Subscribe(c, f, q) ==
     /\ pc[c] = "ready" /\ kcur = c
     /\ Len(stq) < 2                                    \* (bound of the model)
-    /\ KSubscribe(c, f)
-    /\ trie' = trie \cup {f}
-    /\ sess' = [sess EXCEPT ![csess[c]].topics = @ \cup {f}]
-    /\ Store(sess[csess[c]].clean, sess[csess[c]].topics \cup {f})
-    /\ ev' = [a |-> "sub", c |-> c, f |-> f]
+    /\ KSubscribe(c, f, q)
+    /\ trie' = Put(trie, f, q)
+    /\ sess' = [sess EXCEPT ![csess[c]].topics = Put(@, f, q)]
+    /\ Store(sess[csess[c]].clean, Put(sess[csess[c]].topics, f, q))
+    /\ ev' = [a |-> "sub", c |-> c, f |-> f, q |-> q]
     /\ UNCHANGED <<pc, cl, cur, closed, smap, nsid, csess, watchQ, closeReq, admins>>
 
 (* the owner of a session that has just been deleted through the admin endpoint is still connected    *)
 (* until the store's delete notification has been handled: a SUBSCRIBE it sends meanwhile is processed   *)
 (* as usual - and Session.store writes the session into the store again                                   *)
-KickedSubscribe(c, f) ==
+KickedSubscribe(c, f, q) ==
     /\ pc[c] = "ready" /\ kst[c] = "kicked" /\ cur = c /\ ~closed[c]
     /\ Len(stq) < 2
-    /\ ksubs' = ksubs \cup {f} /\ UNCHANGED <<kcur, kex, kclean, kst, kdel>>     \* (should the deleted session be resumed after all, it holds f)
-    /\ trie' = trie \cup {f}
-    /\ sess' = [sess EXCEPT ![csess[c]].topics = @ \cup {f}]
-    /\ Store(sess[csess[c]].clean, sess[csess[c]].topics \cup {f})
-    /\ ev' = [a |-> "ksub", c |-> c, f |-> f]
+    /\ ksubs' = Put(ksubs, f, q) /\ UNCHANGED <<kcur, kex, kclean, kst, kdel>>     \* (should the deleted session be resumed after all, it holds f)
+    /\ trie' = Put(trie, f, q)
+    /\ sess' = [sess EXCEPT ![csess[c]].topics = Put(@, f, q)]
+    /\ Store(sess[csess[c]].clean, Put(sess[csess[c]].topics, f, q))
+    /\ ev' = [a |-> "ksub", c |-> c, f |-> f, q |-> q]
     /\ UNCHANGED <<pc, cl, cur, closed, smap, nsid, csess, watchQ, closeReq, admins>>
 
 NetDrop(c) ==
@@ -197,7 +216,7 @@ T2(c) == /\ TeardownById /\ pc[c] = "T2" /\ pc' = [pc EXCEPT ![c] = "T3"]
          /\ ev' = [a |-> "t2", c |-> c]
          /\ UNCHANGED <<kvars, cl, cur, closed, smap, sess, nsid, csess, trie, closeReq, admins, stq>>
 T3(c) == /\ TeardownById /\ pc[c] = "T3" /\ pc' = [pc EXCEPT ![c] = "T4"]
-         /\ trie' = trie \ Topics(csess[c]) /\ closed' = [closed EXCEPT ![c] = TRUE]
+         /\ trie' = Minus(trie, Topics(csess[c])) /\ closed' = [closed EXCEPT ![c] = TRUE]
          /\ ev' = [a |-> "t3", c |-> c]
          /\ UNCHANGED <<kvars, cl, cur, smap, sess, nsid, csess, db, watchQ, closeReq, admins, stq>>
 T4(c) == /\ pc[c] = "T4" /\ pc' = [pc EXCEPT ![c] = "gone"]
@@ -214,7 +233,7 @@ TFix(c) ==
     /\ IF cur = c \/ (cur = "none" /\ smap = csess[c])      \* still registered, or nobody is and the live session is its own
        THEN /\ IF smap # 0 THEN sess' = [sess EXCEPT ![smap].done = TRUE] /\ smap' = 0 ELSE UNCHANGED <<sess, smap>>
             /\ IF sess[csess[c]].clean THEN db' = NoDb /\ watchQ' = watchQ + 1 ELSE UNCHANGED <<db, watchQ>>
-            /\ trie' = trie \ Topics(csess[c])
+            /\ trie' = Minus(trie, Topics(csess[c]))
        ELSE UNCHANGED <<sess, smap, db, watchQ, trie>>
     /\ ev' = [a |-> "tfix", c |-> c]
     /\ UNCHANGED <<kvars, cl, cur, nsid, csess, closeReq, admins, stq>>
@@ -238,14 +257,15 @@ AdminDelete ==
     /\ UNCHANGED <<pc, cl, cur, closed, smap, sess, nsid, csess, trie, closeReq, stq>>
 
 SNext == \/ \E c \in ConnSet : \/ \E clean \in BOOLEAN : ConnectLocked(c, clean)
-                               \/ CloseAsync(c) \/ Resub(c) \/ \E f \in FiltersS : Subscribe(c, f) \/ KickedSubscribe(c, f)
+                               \/ CloseAsync(c) \/ Resub(c) \/ \E f \in FiltersS, q \in QoSS : Subscribe(c, f, q) \/ KickedSubscribe(c, f, q)
                                \/ NetDrop(c) \/ T1(c) \/ T2(c) \/ T3(c) \/ T4(c) \/ TFix(c)
          \/ WatchDelete \/ AdminDelete \/ DoStore
 SSpec == SInit /\ [][SNext]_svars
 
 (* ------------------------- the property's clauses ------------------------- *)
 STypeOK == /\ kcur \in ConnSet \cup {"none"} /\ cur \in ConnSet \cup {"none"}
-           /\ ksubs \subseteq FiltersS /\ trie \subseteq FiltersS
+           /\ ksubs \subseteq [f : FiltersS, q : QoSS] /\ trie \subseteq [f : FiltersS, q : QoSS]
+           /\ Cardinality(Fs(ksubs)) = Cardinality(ksubs) /\ Cardinality(Fs(trie)) = Cardinality(trie)
            /\ (kcur # "none" => kst[kcur] = "up")
 
 (* contract theorems *)
@@ -268,11 +288,12 @@ SuccessorIntact ==
     (kcur # "none" /\ pc[kcur] \in {"acked", "ready"}) =>
         /\ cur = kcur /\ ~closed[kcur]                                           \* Registered
         /\ smap = csess[kcur] /\ ~sess[csess[kcur]].done                          \* SessionLive
-        /\ (pc[kcur] = "ready" => Topics(csess[kcur]) \subseteq trie)              \* Routed
+        /\ (pc[kcur] = "ready" => Topics(csess[kcur]) \subseteq trie)              \* Routed (each filter with its QoS)
 Registered  == (kcur # "none" /\ pc[kcur] \in {"acked", "ready"}) => (cur = kcur /\ ~closed[kcur])
 SessionLive == (kcur # "none" /\ pc[kcur] \in {"acked", "ready"}) => (smap = csess[kcur] /\ ~sess[csess[kcur]].done)
 Routed      == (kcur # "none" /\ pc[kcur] = "ready") => Topics(csess[kcur]) \subseteq trie
-(* at rest the broker routes exactly the owner's subscriptions (resumed ones included, discarded ones excluded) *)
+(* at rest the broker routes exactly the owner's subscriptions (resumed ones included, discarded ones excluded), *)
+(* each with the QoS it was subscribed with                                                                      *)
 Conforms ==
     (Quiescent /\ kcur # "none") => (trie = ksubs /\ Topics(csess[kcur]) = ksubs)
 (* after an admin delete has been processed the kicked connection is not registered *)
